@@ -155,8 +155,28 @@ func ParseSQL(src string) (*SQLStmt, error) {
 			c := next()
 			if c.k == "sym" && c.s == "*" {
 				st.Cols = append(st.Cols, "*")
+			} else if c.k == "id" && c.is("AS") {
+				next() // alias of the expression before it
 			} else if c.k == "id" {
-				st.Cols = append(st.Cols, strings.ToLower(c.s))
+				if p := peek(); p.k == "sym" && p.s == "(" {
+					// an expression over columns - COUNT(*), SUM(amount), COALESCE(x, 0): one result column that is
+					// not a column of the table (named "fn(...)")
+					depth := 0
+					for i < len(toks) {
+						t2 := next()
+						if t2.k == "sym" && t2.s == "(" {
+							depth++
+						} else if t2.k == "sym" && t2.s == ")" {
+							depth--
+							if depth == 0 {
+								break
+							}
+						}
+					}
+					st.Cols = append(st.Cols, strings.ToLower(c.s)+"(...)")
+				} else {
+					st.Cols = append(st.Cols, strings.ToLower(c.s))
+				}
 			}
 		}
 		next() // FROM
